@@ -49,6 +49,13 @@ class Cylinder(CenteredScatterer):
         self.n = n
         self.d = d
         self.h = h
+        for name, size in [('diameter', d), ('height', h)]:
+            try:
+                if np.any(np.array(size) < 0):
+                    raise InvalidScatterer(self, name + " is negative")
+            except TypeError:
+                # sizes given as priors are not checked (as in Sphere)
+                pass
 
         if np.isscalar(rotation) or len(rotation) != 3:
             raise InvalidScatterer(self,"rotation specified as {0}; "
